@@ -103,7 +103,7 @@ def gen_simple(rng, allow_not=True):
         return ('fpc',) + pick(rng, FPC)
     if allow_not:
         inner = gen_simple(rng, allow_not=False)
-        while inner[0] in ('fpc', 'pe'):
+        while inner[0] == 'pe':
             inner = gen_simple(rng, allow_not=False)
         return ('not', inner if rng.random() < 0.7 else ('type', pick(rng, TYPES)))
     return ('class', pick(rng, NAMES))
